@@ -65,6 +65,16 @@ theorem tables_total : ∀ t ∈ DispatchTables.tables, ∀ a ∈ List.range 5, 
 
 theorem archMask_covers : 4 ≤ DispatchTables.archMask := by decide
 
+/-- tables of kernels that compute in floating point (all others are integer kernels, required bit-exact). -/
+def floatTables : List String :=
+  ["PITCH_XCORR_IMPL", "XCORR_KERNEL_IMPL", "CELT_INNER_PROD_IMPL", "DUAL_INNER_PROD_IMPL", "COMB_FILTER_CONST_IMPL",
+   "OP_PVQ_SEARCH_IMPL", "SILK_INNER_PRODUCT_FLP_IMPL"]
+
+/-- below the AVX2 level every float kernel table holds one and the same function. -/
+theorem float_tables_const_below_avx2 : ∀ t ∈ DispatchTables.tables, t.1 ∈ floatTables →
+    ∀ a ∈ List.range 4, t.2.2[a]? = t.2.2[0]? := by
+  decide +kernel
+
 theorem selectArch_le (f : CpuFeature) (cap : Option Nat) : selectArch f cap ≤ selectArchImpl f := by
   cases cap with
   | none => exact Nat.le_refl _
